@@ -1,6 +1,7 @@
 import XmppModel.Prelude.Hex
 import XmppModel.Model.Correlate
 import XmppModel.Model.CorrAttrs
+import XmppModel.Model.CorrWrap
 import XmppModel.Driver.C15
 import XmppModel.Driver.C18
 /-! Driver module for C06: replays an observed trace of a forced schedule on the LTS of
@@ -376,8 +377,33 @@ def summaryR (n : Nat) (s : RSt) : String :=
   let probe := if s.hpc.isNone && !s.overflow then "live" else "stall"
   s!"out={joinList outs "/"} unh={joinList (s.unhandled.reverse.map toString)} probe={probe}"
 
+/-! `C06 wrap <api> <shape>`: the helpers that own their response (Model/CorrWrap.lean) -/
+def parseWrap (api shape : String) : Option (CorrWrap.Api × CorrWrap.Shape) := do
+  let a ← match api with
+    | "U" => some CorrWrap.Api.unmarshal | "N" => some .unmarshalNil | "V" => some .unmarshalElement
+    | "I" => some .iter | "J" => some .iterElement | _ => none
+  let addr (c : Char) : Option CorrWrap.Addr :=
+    if c = '-' then some .absent else if c = 'v' then some .valid else if c = 'x' then some .invalid else none
+  match shape.toList with
+  | [t, f, o, p] => do
+    let typ ← if t = 'r' then some CorrWrap.Typ.result else if t = 'e' then some .error else none
+    let fr ← addr f
+    let to ← addr o
+    let pl ← if p = 'n' then some CorrWrap.Payload.none else if p = 'o' then some .one else if p = 'c' then some .nested
+      else if p = 't' then some .text else if p = 'b' then some .bad else if p = 'w' then some .space else none
+    pure (a, ⟨typ, fr, to, pl⟩)
+  | _ => none
+
 def handle (args : List String) : Option String :=
   match args with
+  | ["wrap", api, shape] => do
+    let (a, sh) ← parseWrap api shape
+    let o := CorrWrap.call a sh
+    let b (x : Bool) : String := if x then "1" else "0"
+    -- a response nobody closed stalls the serve loop; one whose rest cannot be read ends Serve
+    let probe := if o.helperCloses + (if o.handed then 1 else 0) = 0 then "stall"
+      else if CorrWrap.serveSurvives sh then "live" else "dead"
+    pure s!"err={b o.err} handed={b o.handed} probe={probe}"
   | ["sess", reqs, trace] => do
     let rs ← parseReqs reqs
     let cfg := mkCfg rs
